@@ -33,7 +33,7 @@ RULE = ("part A: {h1, h1tls, h2, h2pk, fwd} x {GET, POST streamed} x {1, 3 concu
 ASSUMPTIONS = ["a call's bytes are attributed by the contextvar set in the caller's task/thread; HTTP/2 heads by the "
                "decoded X-Token", "a part C run is cut off after 3000 network operations (a request re-sent without end) "
                "and then judged by the same oracles", "request bytes 'started' = fault fell in a send_request_* / receive_response_* trace phase"]
-REQUIRED = ["runs", "faults_fired", "oracle_heads_at_most_once", "oracle_no_resend_after_failure", "goaway_runs",
+REQUIRED = ["runs", "faults_fired", "oracle_heads_at_most_once", "oracle_no_resend_after_failure", "goaway_runs", "transparent_runs",
             "goaway_refused_streams", "goaway_resent_ok"]
 
 SENT_PHASES = ("send_request_headers", "send_request_body", "receive_response_headers", "receive_response_body")
@@ -81,7 +81,7 @@ async def one_call(sc, shape, name):
     return r.status, r.content[:30]
 
 
-async def run_many(flavor, ctype, shape, n, retries, fault=None, h2_script=None, lat_seed=None):
+async def run_many(flavor, ctype, shape, n, retries, fault=None, h2_script=None, lat_seed=None, sequential=False, warm=False):
     sc = Sc(ctype, flavor, max_connections=3, resp_delay=0.5, retries=retries)
     if lat_seed is not None:
         lr = random.Random(lat_seed)
@@ -104,7 +104,10 @@ async def run_many(flavor, ctype, shape, n, retries, fault=None, h2_script=None,
     outcomes = {}
 
     async def body():
-        if n == 1 or not is_async(flavor):
+        if warm:
+            # the calls under test run on a kept-alive connection (HTTP/2: later streams of one connection)
+            await one_call(sc, "get", "w0")
+        if n == 1 or sequential or not is_async(flavor):
             for i in range(n):
                 try:
                     outcomes[f"c{i}"] = runners.Outcome("ok", await one_call(sc, shape, f"c{i}"))
@@ -148,7 +151,8 @@ def run_part_a(case):
             viol.append({"key": key, "what": what, "detail": detail})
 
     async def main():
-        sc, outcomes, info, run = await run_many(flavor, ctype, shape, n, retries)
+        warm = bool(case.get("warm"))
+        sc, outcomes, info, run = await run_many(flavor, ctype, shape, n, retries, warm=warm)
         cnt["runs"] += 1
         ctx0 = {"case": case}
         judge_common(sc, outcomes, cnt, v, ctx0)
@@ -163,8 +167,9 @@ def run_part_a(case):
         kinds = {o[0]: o[1] for o in ops}
         sample.update({"case": case, "ops": [o[1] for o in ops][:30], "injections": len(plan_)})
         for idx, f in plan_:
-            sc, outcomes, info, run = await run_many(flavor, ctype, shape, n, retries, fault=(idx, f))
+            sc, outcomes, info, run = await run_many(flavor, ctype, shape, n, retries, fault=(idx, f), warm=warm)
             cnt["runs"] += 1
+            cnt["runs_on_reused_connection"] = cnt.get("runs_on_reused_connection", 0) + warm
             ctx = {"case": case, "fault": [idx, f], "op": kinds.get(idx), "phase": info["fault_phase"],
                    "fault_call": info["fault_call"]}
             if run.kind == "hang":
@@ -174,7 +179,7 @@ def run_part_a(case):
                 continue
             cnt["faults_fired"] += 1
             phase = info["fault_phase"] or "-"
-            sigs.add(f"A|{ctype}|{shape}|n{n}|r{retries}|{flavor}|{f}@{kinds.get(idx)}|{phase}")
+            sigs.add(f"A|{ctype}|{shape}|n{n}|r{retries}|{flavor}|{f}@{kinds.get(idx)}|{phase}|{'reused' if warm else 'new'}")
             judge_common(sc, outcomes, cnt, v, ctx)
             who = info["fault_call"]
             base = phase.split(".")[1] if "." in phase else phase
@@ -298,6 +303,60 @@ def run_part_b(case):
     return {"viol": viol, "counters": cnt, "sigs": sorted(sigs), "sample": sample or None}
 
 
+def run_part_d(case):
+    """A refusal is transparent: one caller, nothing else on the connection, the GOAWAY is the last thing the server says
+    on it and names a last-stream-id below the request's stream (0 when it is the first request of the connection, the
+    previous stream otherwise). Nothing stands in the way of the re-send, so the call must succeed, with one refused
+    transmission and exactly one complete one."""
+    flavor, shape, ctype = case["flavor"], case["shape"], case["ctype"]
+    viol = []
+    cnt = {"runs": 0, "transparent_runs": 0, "transparent_resent_ok": 0}
+    sigs = set()
+
+    def v(key, what, detail):
+        if not any(x["key"] == key for x in viol):
+            viol.append({"key": key, "what": what, "detail": detail})
+
+    want = {"get": b"", "post-bytes": b"B" * 2000, "post-iter": b"a" * 700 + b"b" * 700 + b"c" * 600, "post-big": b"g" * 150000}[shape]
+
+    async def main():
+        for nth, last in ((0, 0), (1, "prev"), (1, 0), (2, "prev")):
+            for lat_seed in (None, 1, 2):
+                script = {"data_chunk": 1000, "actions": [{"when": ("head", nth), "do": "goaway", "last": last, "conn": 0}]}
+                sc, outcomes, info, run = await run_many(flavor, ctype, shape, nth + 1, 0, h2_script=script, lat_seed=lat_seed,
+                                                         sequential=True)
+                cnt["runs"] += 1
+                cnt["transparent_runs"] += 1
+                sigs.add(f"D|{flavor}|{ctype}|{shape}|{nth}|{last}|{lat_seed}")
+                ctx = {"case": case, "goaway": {"nth": nth, "last": last}, "outcomes": {k: repr(o) for k, o in outcomes.items()}}
+                if run.kind == "hang":
+                    v("goaway-hang", "caller hangs after GOAWAY", ctx)
+                    continue
+                heads = heads_by_token(sc)
+                tok = f"c{nth}"
+                o = outcomes.get(tok)
+                reqs = heads.get(tok, [])
+                refused = [r for r in reqs if getattr(r, "refused_by_goaway", False)]
+                counted = [r for r in reqs if not getattr(r, "refused_by_goaway", False)]
+                if o is None or o.kind != "ok":
+                    v(f"refused-request-not-resent:last={'0' if last == 0 else 'prev'}",
+                      f"the server refused the request with GOAWAY(last-stream-id {last}) and said nothing else; the caller got {o!r} "
+                      f"instead of a transparent re-send ({len(refused)} refused, {len(counted)} other transmissions)", ctx)
+                    continue
+                cnt["transparent_resent_ok"] += 1
+                if len(refused) != 1 or len(counted) != 1:
+                    v("transparent-resend-count", f"{len(refused)} refused + {len(counted)} other transmissions", ctx)
+                elif bytes(counted[0].body) != want:
+                    v(f"resent-request-body-mismatch:{shape}", f"{len(counted[0].body)} bytes, caller's body has {len(want)}", ctx)
+                for k, oo in outcomes.items():
+                    if k != tok and oo.kind != "ok":
+                        v("request-before-the-goaway-failed", f"{k}: {oo!r}", ctx)
+                await sc.api.close_pool()
+
+    run_flavor(flavor, None, main, seed=case["seed"])
+    return {"viol": viol, "counters": cnt, "sigs": sorted(sigs), "sample": None}
+
+
 def run_part_c(case):
     """HTTP/1.1: the server speaks (or hangs up) while the request body is still being written. Whatever the outcome,
     the request is on the wire already: one head per call, no second connection for it."""
@@ -364,7 +423,7 @@ def run_part_c(case):
 
 
 def run_case(case):
-    return {"A": run_part_a, "B": run_part_b, "C": run_part_c}[case["part"]](case)
+    return {"A": run_part_a, "B": run_part_b, "C": run_part_c, "D": run_part_d}[case["part"]](case)
 
 
 def plan(tier, seed):
@@ -381,6 +440,9 @@ def plan(tier, seed):
                             continue
                         cases.append({"part": "A", "ctype": ctype, "shape": shape, "n": n, "retries": retries,
                                       "flavor": flavor, "tier": tier, "seed": r.randrange(1 << 30)})
+                        if n == 1 and (retries == 0 or tier != "quick"):
+                            # the same enumeration with the call on a kept-alive connection
+                            cases.append(dict(cases[-1], warm=True, seed=r.randrange(1 << 30)))
     for ctype in ("h2", "h2pk"):
         for shape in ("get", "post-bytes", "post-iter", "post-big", "post-once"):
             for flavor in ("asyncio", "trio"):
@@ -396,5 +458,9 @@ def plan(tier, seed):
             for flavor in ("asyncio", "trio", "sync"):
                 cases.append({"part": "C", "ctype": ctype, "mode": mode, "flavor": flavor, "tier": tier,
                               "seed": r.randrange(1 << 30)})
+    for ctype in ("h2", "h2pk"):
+        for shape in ("get", "post-bytes", "post-iter", "post-big"):
+            for flavor in ("asyncio", "trio", "sync"):
+                cases.append({"part": "D", "ctype": ctype, "shape": shape, "flavor": flavor, "tier": tier, "seed": r.randrange(1 << 30)})
     cases.sort(key=lambda c: (c["part"] == "A", -c.get("n", 3)))
     return cases
